@@ -49,6 +49,7 @@ def cases(tier, seed):
     r0.shuffle(grid)
     spell = {"w": ["w", "write"], "o": ["o", "overwrite"], "a": ["a", "+", "append"],
              "ao": ["ao", "oa", "o+", "+o", "appendover"], "bad": BAD}
+    seen_junk = {}
     for i in range(n):
         r = common.case_rng(seed, PID, i)
         forced = grid[i] if i < len(grid) else None
@@ -60,7 +61,13 @@ def cases(tier, seed):
         if old == "emd":
             steps.append({"do": "save", "path": "A", "src": "OLD", "target": [], "mode": "w", "tree": True, "emdpath": None})
         elif old == "junk":
-            steps.append({"do": "put", "path": "A", "junk": r.choice(["", "hello", "\x89HDF\r\n\x1a\nnot really", "x" * 3000])})
+            junks = ["", "hello", "\x89HDF\r\n\x1a\nnot really", "x" * 3000]
+            if forced:
+                # directed: within the grid every mode class meets every kind of junk, the ZERO-LENGTH file included
+                seen_junk[forced[1]] = seen_junk.get(forced[1], -1) + 1
+                steps.append({"do": "put", "path": "A", "junk": junks[seen_junk[forced[1]] % 4]})
+            else:
+                steps.append({"do": "put", "path": "A", "junk": r.choice(junks)})
         elif old == "foreign":
             steps.append({"do": "puth5", "path": "A", "spec": r.choice(["empty", "attrs_only", "wrong_version", "no_roots", "group"])})
         mode = r.choice(spell[forced[1]]) if forced else (r.choice(MODES) if r.random() < 0.85 else r.choice(BAD))
